@@ -210,7 +210,7 @@ func checkC01(c *Check) {
 
 	// ---- R10 the shortcut dispatches exactly what the tree would
 	c.Rule("R10", "shared with C10 (R1, R2, R4, R5)", "a request answered by the shortcut table is one the tree admits for the same leaf: insert only static non-optional leaves under their own route text, look up by the unmodified (method, path), static nodes compare their canonical text exactly", 8)
-	c.Share("C10", []string{"R1", "R2", "R4", "R5"}, 8)
+	c.Share("C10", []string{"R1", "R2", "R4", "R5", "R6"}, 8)
 
 	// ---- R8 optional short form
 	c.Rule("R8", "E3 provenance + E1", "an optional last segment registers a second leaf one level up (or the root path) with the same route and handler before the long form is stored", 2)
